@@ -81,6 +81,17 @@ def run(ctx):
         interleaved(ctx, *m)
     for m in (THOROUGH_SEQ if thorough else QUICK_SEQ):
         sequential(ctx, *m, witness=(m[0] in ("i11", "ed37") and m[2] > 0))
+    # the whole state machine with an active attacker, random simulation: every invariant on every sampled state
+    for g in (["i23", "ed37"] if thorough else ["i23"]):
+        consts = dict(toy_consts(g))
+        consts.update({"ParamSets": "<- MC_ParamSets", "Passwords": "<- MC_Passwords", "IdPairs": "<- MC_IdPairs",
+                       "ClassSet": "<- MC_ClassSet", "MaxInst": "6", "MaxRestore": "3",
+                       "ScalarChoices": "<- MC_ScalarChoices", "Attacker": "<- MC_Attacker"})
+        ctx.mc("MC_Big", cfg(constants=consts, invariants=["Agreement", "NoAgreementButFindings", "AtMostOneMsg", "AtMostOneKey",
+                                                           "EntropyOnlyInStart", "NeverKeyForWrongSide", "KeyOnlyFromCanonical",
+                                                           "RestoreEquivalent"], properties=["ScalarStable"]),
+               label="MC_Big/simulate[%s, 6 instances, 3 restores, attacker]" % g,
+               simulate="num=%d" % (150 if thorough else 12), extra=["-depth", "30", "-seed", str(ctx.seed + 1)], timeout=3000)
     uni = Universe()
     mp = Mapper(uni)
     traces = []
